@@ -218,31 +218,35 @@ def check(sp, ops, pre=None):
     return len(nodes_)
 
 
+_MARKUP = ["a < b", "x & y", "1 > 0", "<b>&</b>", "R&D <ok>", "&amp; already", "<para>p</para>",
+           "a\xa0b", "two  spaces here", " padded ", "tab\there", "line\nbreak ", " 5", "5 ",
+           "1.0\n", " 12:00:00", "2020-01-01 ", "one two three four\xa0five six", "&lt;x&gt;"]
+
+
 @st.composite
 def cases(draw):
+    from vf.pre import Pre
+    pre = Pre(draw, 48)     # control choices first (vf/pre.py): operations, registry pre-state, where special content goes
+    ops = [(pre.pick(OP_NAMES), pre.int(0, 30)) for _ in range(pre.int(3, 12))]
+    if pre.bool():
+        ops.append(pre.pick(ops))
+    pre_state = pre.pick([None, None, "loaded-twice", "unregistered"])
     valid = treegen.valid_spec(max_nodes=30)
     fx = treegen.subtrees_of_fixture(40)
     parts = [valid, treegen.mutated(valid, 1, 3).map(lambda t: t[0]), treegen.arb_spec(14)]
     if fx:
         parts.append(st.sampled_from(fx))
-    sp = draw(st.one_of(*parts))
-    if draw(st.booleans()):
+    sp = draw(parts[pre.int(0, len(parts) - 1)])
+    if pre.bool():
         # make sure the classes an in-place "clean-up" would touch are present: markup characters, entities,
         # non-breaking / doubled / padding whitespace - on any node, and preferably on nodes with typed content and on titles
         allp = [s for _, s in treegen.spec_nodes(sp)]
         special = [s for s in allp if s["n"] in ("title", "abstract", "para", "keyword") or
                    contentgen.describe(R.rules_dict.get(R.node_mappings.get(s["n"], ""), [0, 0, {}])[2]).get("typed")]
-        pool = special if special and draw(st.booleans()) else allp
-        for _ in range(draw(st.integers(1, 3))):
-            tgt = pool[draw(st.integers(0, len(pool) - 1))]
-            tgt["c"] = draw(st.sampled_from(["a < b", "x & y", "1 > 0", "<b>&</b>", "R&D <ok>", "&amp; already", "<para>p</para>",
-                                             "a\xa0b", "two  spaces here", " padded ", "tab\there", "line\nbreak ", " 5", "5 ",
-                                             "1.0\n", " 12:00:00", "2020-01-01 ", "one two three four\xa0five six", "&lt;x&gt;"]))
-    ops = draw(st.lists(st.tuples(st.sampled_from(OP_NAMES), st.integers(0, 30)), min_size=3, max_size=12))
-    if draw(st.booleans()) and ops:
-        ops.append(ops[draw(st.integers(0, len(ops) - 1))])
-    pre = draw(st.sampled_from([None, None, "loaded-twice", "unregistered"]))
-    return sp, ops, pre
+        pool = special if special and pre.bool() else allp
+        for _ in range(pre.int(1, 3)):
+            pre.pick(pool)["c"] = pre.pick(_MARKUP)
+    return sp, ops, pre_state
 
 
 def hyp_shard(ctx, shard):
